@@ -43,7 +43,7 @@ func numberMatches(text string, bf *big.Float) bool {
 		return false
 	}
 	if want.Cmp(got) == 0 {
-		return want.Sign() != 0 || !bf.Signbit() || true
+		return true
 	}
 	diff := new(big.Rat).Sub(want, got)
 	diff.Abs(diff)
@@ -649,6 +649,57 @@ func checkGoBody(s *Schema, lay *goLayout, items []*Item, labels []string, rv re
 	return nil
 }
 
+// checkExtras: stage two of a partial decode returned exactly the extra attributes.
+func checkExtrasCty(s *Schema, items []*Item, xv cty.Value) *mismatch {
+	if xv == cty.NilVal || !xv.IsKnown() || xv.IsNull() || !xv.Type().IsObjectType() {
+		return mm("partial:shape", "<remain>", "stage two did not return an object: %#v", xv)
+	}
+	if len(xv.Type().AttributeTypes()) != len(s.Extras) {
+		return mm("partial:shape", "<remain>", "stage two object has %d attributes, want %q", len(xv.Type().AttributeTypes()), s.Extras)
+	}
+	for _, n := range s.Extras {
+		if !xv.Type().HasAttribute(n) {
+			return mm("partial:shape", "<remain>", "stage two object lacks %q", n)
+		}
+		defs := attrsOf(items, n)
+		if len(defs) == 0 {
+			if ev := xv.GetAttr(n); !ev.IsKnown() || !ev.IsNull() {
+				return mm("partial:attr:absent", "<remain>."+n, "extra attribute not set, got %#v", ev)
+			}
+			continue
+		}
+		if m := checkCtyVal(TypeS{K: "any"}, defs[0].Val, xv.GetAttr(n), "<remain>."+n); m != nil {
+			m.Class = "partial:" + m.Class
+			return m
+		}
+	}
+	return nil
+}
+
+func checkExtrasGo(s *Schema, items []*Item, xg reflect.Value) *mismatch {
+	if !xg.IsValid() {
+		return mm("partial:shape", "<remain>", "no remaining body was returned")
+	}
+	for i, n := range s.Extras {
+		cv := xg.Field(i).Interface().(cty.Value)
+		defs := attrsOf(items, n)
+		if len(defs) == 0 {
+			if cv != cty.NilVal {
+				return mm("partial:attr:absent", "<remain>."+n, "extra attribute not set, field holds %#v", cv)
+			}
+			continue
+		}
+		if cv == cty.NilVal {
+			return mm("partial:attr:nil", "<remain>."+n, "extra attribute not decoded")
+		}
+		if m := checkCtyVal(TypeS{K: "any"}, defs[0].Val, cv, "<remain>."+n); m != nil {
+			m.Class = "partial:" + m.Class
+			return m
+		}
+	}
+	return nil
+}
+
 // ---------------------------------------------------------------------------------
 // feature census of a (schema, value) pair
 // ---------------------------------------------------------------------------------
@@ -656,6 +707,14 @@ func checkGoBody(s *Schema, lay *goLayout, items []*Item, labels []string, rv re
 func census(s *Schema, items []*Item, depth int, out map[string]int) {
 	if depth > out["max-depth"] {
 		out["max-depth"] = depth
+	}
+	if s.Partial {
+		out["feat:partial:"+s.RemainKind]++
+		for _, n := range s.Extras {
+			if len(attrsOf(items, n)) > 0 {
+				out["feat:partial-extras"]++
+			}
+		}
 	}
 	for i := range s.Attrs {
 		a := &s.Attrs[i]
